@@ -1,0 +1,6 @@
+//go:build !verif
+
+package client
+
+// verifYield is a scheduling point for the verification harness; a no-op in normal builds.
+func verifYield(string) {}
